@@ -166,9 +166,10 @@ RZW_REQ = WF() + [
     "forall(j, 0, n, prof.th_fc[j] - prof.th_wp[j] >= 0.01)",
     "forall(j, 0, n, InitCond_th[j] >= 0 and InitCond_th[j] <= prof.th_s[j])",
     "Crop_Zmin >= 0.02",
-    "Crop_Aer >= 1",
+    # aeration threshold: a percentage >= 1 below saturation, or the "never" sentinel of the paddy crops (Aer <= 0)
+    "Crop_Aer >= 1 or Crop_Aer <= 0",
     "max(InitCond_Zroot, Crop_Zmin) + 0.005 <= prof.dzsum[n-1]",
-    "Soil_zTop >= prof.dzsum[0] + 0.005 or (is_int(100 * Soil_zTop) and Soil_zTop >= prof.dzsum[0])",
+    "Soil_zTop >= 0.01",
 ]
 contract(SOL + "root_zone_water.py", "root_zone_water",
          params=dict(prof=OBJ("SoilProfile"), InitCond_Zroot="Real", InitCond_th=_PA, Soil_zTop="Real", Crop_Zmin="Real", Crop_Aer="Real"),
@@ -180,7 +181,7 @@ contract(SOL + "root_zone_water.py", "root_zone_water",
              ("C13.rzw_taw_positive", "TAW_Rz > 0"),
              ("C13.rzw_depletion_le_taw", "Dr_Rz <= TAW_Rz and Dr_Zt <= TAW_Zt"),
              ("C13.rzw_taw_top_positive", "TAW_Zt > 0"),
-             ("C04.rzw_aer_lt_sat", "thRZ_Aer < thRZ_S"),
+             ("C04.rzw_aer_lt_sat", "implies(Crop_Aer >= 1, thRZ_Aer < thRZ_S) and implies(Crop_Aer <= 0, thRZ_Aer >= thRZ_S)"),
              ("C04.rzw_act_le_sat", "thRZ_Act <= thRZ_S"),
              ("C04.rzw_act_nonneg", "thRZ_Act >= 0"),
              ("C04.rzw_wp_lt_fc", "thRZ_WP < thRZ_FC"),
@@ -191,12 +192,13 @@ contract(SOL + "root_zone_water.py", "root_zone_water",
                  ("taw_pos", "implies(ii == comp_sto + 1, WrFC - WrWP > 0)"),
                  ("comp", "0 <= comp_sto and comp_sto < n"),
                  ("rd", "rootdepth >= 0.015"),
-                 ("aer_lb", "implies(ii <= comp_sto, WrS - WrAer >= 0.09 * ii)"),
-                 ("aer_pos", "implies(ii == comp_sto + 1, WrS - WrAer > 0)"),
+                 ("aer_lb", "implies(Crop_Aer >= 1 and ii <= comp_sto, WrS - WrAer >= 0.09 * ii)"),
+                 ("aer_pos", "implies(Crop_Aer >= 1 and ii == comp_sto + 1, WrS - WrAer > 0)"),
+                 ("aer_never", "implies(Crop_Aer <= 0, WrAer >= WrS)"),
                  ("act_le_s", "WrAct <= WrS and WrS >= 0"),
              ]),
              "L2": dict(invariant=[("taw_top", "WrFC_Zt - WrWP_Zt >= 0 and implies(ii >= 1, WrFC_Zt - WrWP_Zt > 0)"),
-                                   ("cs", "comp_sto >= 1 and comp_sto <= n and comp_sto == count_le(prof.dzsum, ztopdepth)")]),
+                                   ("cs", "comp_sto >= 1 and comp_sto <= n and ztopdepth >= 0.005")]),
          },
          assigns=[],
          props=("C03", "C12", "C13", "C16"))
@@ -378,11 +380,14 @@ contract(SOL + "capillary_rise.py", "capillary_rise",
          props=("C01", "C03", "C04", "C19", "C12", "C16"))
 
 # ----------------------------------------------------------------------------- evap_layer_water_content
-_REWLB = "1000 * (prof.th_fc[0] - prof.th_dry[0]) * min({z}, prof.dz[0])"
+# room of the evaporation layer above air-dry: at least 1000*gmin*z, where the ghost gmin is a uniform lower bound of th_fc - th_dry
+_REWLB = "1000 * gmin * {z}"
+GMIN_REQ = ["gmin > 0", "forall(j, 0, n, prof.th_fc[j] - prof.th_dry[j] >= gmin)"]
+GHOST_NG = {"n": "Int", "gmin": "Real"}
 contract(SOL + "evap_layer_water_content.py", "evap_layer_water_content",
          params=dict(InitCond_th=_PA, InitCond_EvapZ="Real", prof=OBJ("SoilProfile")),
-         ghost=GHOST_N,
-         requires=WF() + ["forall(j, 0, n, prof.th_dry[j] <= InitCond_th[j])", "InitCond_EvapZ > 0", "InitCond_EvapZ <= prof.dzsum[n-1]"],
+         ghost=GHOST_NG,
+         requires=WF() + GMIN_REQ + ["forall(j, 0, n, prof.th_dry[j] <= InitCond_th[j])", "InitCond_EvapZ > 0", "InitCond_EvapZ <= prof.dzsum[n-1]"],
          returns=[(x, "Real") for x in ("Wevap_Sat", "Wevap_Fc", "Wevap_Wp", "Wevap_Dry", "Wevap_Act")],
          ensures=[
              ("C03.evap_layer_order", "0 <= Wevap_Dry and Wevap_Dry < Wevap_Wp and Wevap_Wp < Wevap_Fc and Wevap_Fc < Wevap_Sat"),
@@ -396,7 +401,7 @@ contract(SOL + "evap_layer_water_content.py", "evap_layer_water_content",
              ("order", "0 <= Wevap_Dry and Wevap_Dry <= Wevap_Wp and Wevap_Wp <= Wevap_Fc and Wevap_Fc <= Wevap_Sat"),
              ("strict", "implies(ii >= 1, Wevap_Dry < Wevap_Wp and Wevap_Wp < Wevap_Fc and Wevap_Fc < Wevap_Sat)"),
              ("act", "Wevap_Dry <= Wevap_Act"),
-             ("room", "implies(ii >= 1, Wevap_Fc - Wevap_Dry >= " + _REWLB.format(z="InitCond_EvapZ") + ")"),
+             ("room", "implies(ii >= 1, Wevap_Fc - Wevap_Dry >= " + _REWLB.format(z="min(prof.dzsum[ii-1], InitCond_EvapZ)") + ")"),
              ("cs", "1 <= comp_sto and comp_sto <= n and comp_sto == count_lt(prof.dzsum, InitCond_EvapZ) + 1"),
              ("act_sum", "Wevap_Act == wsum(evw(prof, InitCond_EvapZ), InitCond_th, ii)"),
              ("dry_sum", "Wevap_Dry == wsum(evw(prof, InitCond_EvapZ), prof.th_dry, ii)"),
@@ -422,8 +427,8 @@ _SE_COMMON = [
     ("ws2", "NewCond_Wstage2 >= 0"),
 ]
 contract(SOL + "soil_evaporation.py", "soil_evaporation",
-         params=_SE_P, ghost=GHOST_N,
-         requires=WF() + [
+         params=_SE_P, ghost=GHOST_NG,
+         requires=WF() + GMIN_REQ + [
              WATER_INV("NewCond_th"), "n >= 2",
              "ClockStruct_EvapTimeSteps >= 1",
              "0 < Soil_EvapZmin and Soil_EvapZmin <= Soil_EvapZmax and Soil_EvapZmax + 0.001 <= prof.dzsum[n-2]",
@@ -509,9 +514,9 @@ contract(SOL + "transpiration.py", "transpiration",
              "Soil_nComp == n",
              WATER_INV("InitCond.th", "Soil_Profile"),
              "forall(j, 0, n, Soil_Profile.dz[j] >= 0.01)", "forall(j, 0, n, Soil_Profile.th_fc[j] - Soil_Profile.th_wp[j] >= 0.01)",
-             "Crop.Zmin >= 0.02", "Crop.Aer >= 1", "Crop.Aer <= 100",
+             "Crop.Zmin >= 0.02", "Crop.Aer >= 1 or Crop.Aer <= 0", "Crop.Aer <= 100",
              "max(InitCond.z_root, Crop.Zmin) + 0.005 <= Soil_Profile.dzsum[n-1]",
-             "Soil_zTop >= Soil_Profile.dzsum[0] + 0.005 or (is_int(100 * Soil_zTop) and Soil_zTop >= Soil_Profile.dzsum[0])",
+             "Soil_zTop >= 0.01",
              "InitCond.surface_storage >= 0", "et0 >= 0",
              "0 <= IrrMngt_NetIrrSMT and IrrMngt_NetIrrSMT <= 100", "0 <= IrrMngt_IrrMethod and IrrMngt_IrrMethod <= 5",
              # crop validity (valid_crop; catalogue obligation) and crop state (canopy_inv, established by canopy_cover): only needed in season
@@ -527,7 +532,7 @@ contract(SOL + "transpiration.py", "transpiration",
              "implies(growing_season, 0 <= InitCond.canopy_cover_adj_ns and InitCond.canopy_cover_adj_ns <= 1)",
              "implies(growing_season, InitCond.canopy_cover >= 0 and InitCond.canopy_cover_ns >= 0)",
              "implies(growing_season, Crop.TrColdStress == 0 or Crop.TrColdStress == 1)",
-             "implies(growing_season, Crop.GDD_lo < Crop.GDD_up)",
+             "implies(growing_season and Crop.TrColdStress == 1, Crop.GDD_lo < Crop.GDD_up)",
              "implies(growing_season, Crop.ETadj == 0 or Crop.ETadj == 1)",
              "implies(growing_season, Crop.LagAer >= 2)",
              "implies(growing_season, InitCond.day_submerged >= 0)",
